@@ -584,7 +584,7 @@ func (x Expr) Has(data any) bool {
 					if int(fi) == len(x)-1 && start < end { // last one
 						return true
 					}
-					end = start + (end-start-1)/step*step
+					end = sliceLast(start, end, step)
 					for i := end; start <= i; i -= step {
 						v = tv[i]
 						switch v.(type) {
@@ -608,7 +608,7 @@ func (x Expr) Has(data any) bool {
 					if int(fi) == len(x)-1 && end < start { // last one
 						return true
 					}
-					end = start - (start-end-1)/step*step
+					end = sliceLast(start, end, step)
 					for i := end; i <= start; i -= step {
 						v = tv[i]
 						switch v.(type) {
@@ -647,7 +647,7 @@ func (x Expr) Has(data any) bool {
 					if int(fi) == len(x)-1 && start < end { // last one
 						return true
 					}
-					end = start + (end-start-1)/step*step
+					end = sliceLast(start, end, step)
 					for i := end; start <= i; i -= step {
 						v = tv.ValueAtIndex(i)
 						switch v.(type) {
@@ -671,7 +671,7 @@ func (x Expr) Has(data any) bool {
 					if int(fi) == len(x)-1 && end < start { // last one
 						return true
 					}
-					end = start - (start-end-1)/step*step
+					end = sliceLast(start, end, step)
 					for i := end; i <= start; i -= step {
 						v = tv.ValueAtIndex(i)
 						switch v.(type) {
@@ -709,7 +709,7 @@ func (x Expr) Has(data any) bool {
 					if int(fi) == len(x)-1 && start < end { // last one
 						return true
 					}
-					end = start + (end-start-1)/step*step
+					end = sliceLast(start, end, step)
 					for i := end; start <= i; i -= step {
 						v = tv[i]
 						switch v.(type) {
@@ -724,7 +724,7 @@ func (x Expr) Has(data any) bool {
 					if int(fi) == len(x)-1 && end < start { // last one
 						return true
 					}
-					end = start - (start-end-1)/step*step
+					end = sliceLast(start, end, step)
 					for i := end; i <= start; i -= step {
 						v = tv[i]
 						switch v.(type) {
